@@ -469,6 +469,9 @@ pub fn run(args: &Args, which: &'static str) -> i32 {
 		.filter(|s| args.opt("only").map(|o| s.name.contains(o)).unwrap_or(true))
 		.map(|s| to_runner(s, which))
 		.collect();
+	// (the deferred-mode scenario last: it must not take wall budget from the k = 3 scenarios on a loaded machine)
+	let mut scns = scns;
+	scns.sort_by_key(|s| if s.name.contains("deferred-stall-crash") { 1 } else { 0 });
 	let mut r = run_scenarios(which, args, scns, cap);
 	fill_model_checking_evidence(&mut ev, &r);
 	if which == "C02" && (args.opt("only").is_none() || args.opt("only") == Some("dust")) {
